@@ -6,6 +6,7 @@ import ImathVerif.Lemmas.C09Lemmas
 import ImathVerif.Lemmas.C09FrameLemmas
 import ImathVerif.Lemmas.C09NextFrame
 import ImathVerif.Lemmas.C09Quat
+import ImathVerif.Lemmas.C09QuatSplit
 import Mathlib.Tactic.Ring
 import Mathlib.Tactic.FinCases
 import Mathlib.Analysis.SpecialFunctions.Trigonometric.Basic
@@ -102,17 +103,40 @@ theorem rotationMatrix_nearOpposite (tmin tmax teps : α) (sqrt : α → α) (hl
       (nrm (Gen.V3.length tmin tmax sqrt) fromDir).toVec ᵥ* rot3 (Gen.Frame.rotationMatrix tmin tmax teps sqrt fromDir toDir)
         = (vneg (nrm (Gen.V3.length tmin tmax sqrt) fromDir)).toVec := by
   rw [rotationMatrix_spec tmin tmax teps sqrt hlen fromDir toDir hf ht]; exact rotationMatrixSpec_nearOpposite hlen teps hf ht hd hopp
-/- FULL statement for the remaining case (angle > π/2, `|from^ + to^|² > (8ε)²`): as `rotationMatrix_acute`, i.e. orthonormal right-handed
-   AND `from^ ᵥ* R = to^`.  Proved below: orthonormal, right-handed, affine, no translation (product of two unit quaternions).
-   MISSING: `from^ ᵥ* R = to^` for this branch — it needs `M(q₁q₂) = M(q₂)M(q₁)` together with the fact that the two half rotations
-   share their axis (nested normalisations); it is measured by the residue harness (`rotationMatrix.from->to`). -/
-theorem rotationMatrix_obtuse_partial (tmin tmax teps : α) (sqrt : α → α) (hlen : LenSpec (Gen.V3.length tmin tmax sqrt)) (fromDir toDir : V3 α)
+/-- the remaining case — angle > π/2 and `|from^ + to^|² > (8ε)²`: `Quat::setRotation` splits the rotation at the half-way vector
+`h0 = (from^ + to^)^` and multiplies the two half rotations.  FULL statement, as `rotationMatrix_acute`: orthonormal right-handed, no
+translation, AND `from^ ᵥ* R = to^` (the two factors share the axis `from × to`, hence commute: `Lemmas/C09QuatSplit.lean`) -/
+theorem rotationMatrix_obtuse (tmin tmax teps : α) (sqrt : α → α) (hlen : LenSpec (Gen.V3.length tmin tmax sqrt)) (fromDir toDir : V3 α)
     (hf : fromDir ≠ ⟨0, 0, 0⟩) (ht : toDir ≠ ⟨0, 0, 0⟩)
     (hd : dot (nrm (Gen.V3.length tmin tmax sqrt) fromDir) (nrm (Gen.V3.length tmin tmax sqrt) toDir) < 0)
     (hbig : (8 * teps) * (8 * teps) < dot (vadd (nrm (Gen.V3.length tmin tmax sqrt) fromDir) (nrm (Gen.V3.length tmin tmax sqrt) toDir))
                 (vadd (nrm (Gen.V3.length tmin tmax sqrt) fromDir) (nrm (Gen.V3.length tmin tmax sqrt) toDir))) :
-    IsFrame (Gen.Frame.rotationMatrix tmin tmax teps sqrt fromDir toDir) ∧ row3 (Gen.Frame.rotationMatrix tmin tmax teps sqrt fromDir toDir) = ⟨0, 0, 0⟩ := by
-  rw [rotationMatrix_spec tmin tmax teps sqrt hlen fromDir toDir hf ht]; exact rotationMatrixSpec_obtuse hlen teps hf ht hd hbig
+    IsFrame (Gen.Frame.rotationMatrix tmin tmax teps sqrt fromDir toDir) ∧ row3 (Gen.Frame.rotationMatrix tmin tmax teps sqrt fromDir toDir) = ⟨0, 0, 0⟩ ∧
+      (nrm (Gen.V3.length tmin tmax sqrt) fromDir).toVec ᵥ* rot3 (Gen.Frame.rotationMatrix tmin tmax teps sqrt fromDir toDir)
+        = (nrm (Gen.V3.length tmin tmax sqrt) toDir).toVec := by
+  rw [rotationMatrix_spec tmin tmax teps sqrt hlen fromDir toDir hf ht]; exact rotationMatrixSpec_obtuse_carries hlen teps hf ht hd hbig
+
+/-! non-vacuity of the case hypotheses (for EVERY `len` with `LenSpec`, in particular the extracted `length()` over ℝ with `Real.sqrt`,
+`lenSpec_of_sqrt` in Props/C09.lean): `from = (1,0,0)` and
+* `to = (1,1,0)` is the acute case;
+* `to = (−1,1,0)`, `teps = 0` the obtuse (split) case;
+* `to = (−1,1/100,0)`, `teps = 1` the nearly-opposite fallback (the threshold `8ε` is then 8, far above `|from^ + to^| < √2`). -/
+example (len : V3 α → α) (hlen : LenSpec len) : 0 ≤ dot (nrm len ⟨1, 0, 0⟩) (nrm len ⟨1, 1, 0⟩) :=
+  dot_nrm_nrm_nonneg hlen (by simp) (by simp) (by simp [dot])
+example (len : V3 α → α) (hlen : LenSpec len) :
+    dot (nrm len ⟨1, 0, 0⟩) (nrm len ⟨-1, 1, 0⟩) < 0 ∧
+      (8 * (0 : α)) * (8 * 0) < dot (vadd (nrm len ⟨1, 0, 0⟩) (nrm len ⟨-1, 1, 0⟩)) (vadd (nrm len ⟨1, 0, 0⟩) (nrm len ⟨-1, 1, 0⟩)) := by
+  refine ⟨dot_nrm_nrm_neg hlen (by simp) (by simp) (by simp [dot]), ?_⟩
+  have := vadd_nrm_pos_of_cross hlen (f := ⟨1, 0, 0⟩) (t := ⟨-1, 1, 0⟩) (by simp) (by simp) (by simp [cross])
+  simpa using this
+example (len : V3 α → α) (hlen : LenSpec len) :
+    dot (nrm len ⟨1, 0, 0⟩) (nrm len ⟨-1, 1 / 100, 0⟩) < 0 ∧
+      dot (vadd (nrm len ⟨1, 0, 0⟩) (nrm len ⟨-1, 1 / 100, 0⟩)) (vadd (nrm len ⟨1, 0, 0⟩) (nrm len ⟨-1, 1 / 100, 0⟩)) ≤ (8 * (1 : α)) * (8 * 1) := by
+  have hd := dot_nrm_nrm_neg hlen (f := ⟨1, 0, 0⟩) (t := ⟨-1, 1 / 100, 0⟩) (by simp) (by simp) (by simp [dot])
+  refine ⟨hd, ?_⟩
+  rw [dot_vadd_unit (nrm_unit' hlen (by simp)) (nrm_unit' hlen (by simp))]
+  linarith
+
 /-- hence for ALL non-zero `from`, `to` (parallel, opposite and nearly opposite included) and every `teps`: an orthonormal right-handed
 frame without translation -/
 theorem rotationMatrix_frame (tmin tmax teps : α) (sqrt : α → α) (hlen : LenSpec (Gen.V3.length tmin tmax sqrt)) (fromDir toDir : V3 α)
@@ -122,9 +146,36 @@ theorem rotationMatrix_frame (tmin tmax teps : α) (sqrt : α → α) (hlen : Le
   · exact ⟨(rotationMatrix_acute tmin tmax teps sqrt hlen fromDir toDir hf ht hd).1, (rotationMatrix_acute tmin tmax teps sqrt hlen fromDir toDir hf ht hd).2.1⟩
   · by_cases hbig : (8 * teps) * (8 * teps) < dot (vadd (nrm (Gen.V3.length tmin tmax sqrt) fromDir) (nrm (Gen.V3.length tmin tmax sqrt) toDir))
         (vadd (nrm (Gen.V3.length tmin tmax sqrt) fromDir) (nrm (Gen.V3.length tmin tmax sqrt) toDir))
-    · exact rotationMatrix_obtuse_partial tmin tmax teps sqrt hlen fromDir toDir hf ht (not_le.mp hd) hbig
+    · have h := rotationMatrix_obtuse tmin tmax teps sqrt hlen fromDir toDir hf ht (not_le.mp hd) hbig
+      exact ⟨h.1, h.2.1⟩
     · have h := rotationMatrix_nearOpposite tmin tmax teps sqrt hlen fromDir toDir hf ht (not_le.mp hd) (not_lt.mp hbig)
       exact ⟨h.1, h.2.1⟩
+/-- "carries `from^` to `to^`" for ALL non-zero pairs and every `teps`: EXACTLY, unless the directions are opposite to within the code's
+threshold (`from^·to^ < 0` and `|from^ + to^|² ≤ (8ε)²`); there the result is the exact half-turn `from^ ↦ −from^`, whose distance from
+`to^` is `|from^ + to^| ≤ 8ε` -/
+theorem rotationMatrix_carries (tmin tmax teps : α) (sqrt : α → α) (hlen : LenSpec (Gen.V3.length tmin tmax sqrt)) (fromDir toDir : V3 α)
+    (hf : fromDir ≠ ⟨0, 0, 0⟩) (ht : toDir ≠ ⟨0, 0, 0⟩) :
+    (¬ (dot (nrm (Gen.V3.length tmin tmax sqrt) fromDir) (nrm (Gen.V3.length tmin tmax sqrt) toDir) < 0 ∧
+        dot (vadd (nrm (Gen.V3.length tmin tmax sqrt) fromDir) (nrm (Gen.V3.length tmin tmax sqrt) toDir))
+            (vadd (nrm (Gen.V3.length tmin tmax sqrt) fromDir) (nrm (Gen.V3.length tmin tmax sqrt) toDir)) ≤ (8 * teps) * (8 * teps)) →
+      (nrm (Gen.V3.length tmin tmax sqrt) fromDir).toVec ᵥ* rot3 (Gen.Frame.rotationMatrix tmin tmax teps sqrt fromDir toDir)
+        = (nrm (Gen.V3.length tmin tmax sqrt) toDir).toVec) ∧
+    ((dot (nrm (Gen.V3.length tmin tmax sqrt) fromDir) (nrm (Gen.V3.length tmin tmax sqrt) toDir) < 0 ∧
+        dot (vadd (nrm (Gen.V3.length tmin tmax sqrt) fromDir) (nrm (Gen.V3.length tmin tmax sqrt) toDir))
+            (vadd (nrm (Gen.V3.length tmin tmax sqrt) fromDir) (nrm (Gen.V3.length tmin tmax sqrt) toDir)) ≤ (8 * teps) * (8 * teps)) →
+      (nrm (Gen.V3.length tmin tmax sqrt) fromDir).toVec ᵥ* rot3 (Gen.Frame.rotationMatrix tmin tmax teps sqrt fromDir toDir)
+        = (vneg (nrm (Gen.V3.length tmin tmax sqrt) fromDir)).toVec ∧
+      dot (vsub (vneg (nrm (Gen.V3.length tmin tmax sqrt) fromDir)) (nrm (Gen.V3.length tmin tmax sqrt) toDir))
+          (vsub (vneg (nrm (Gen.V3.length tmin tmax sqrt) fromDir)) (nrm (Gen.V3.length tmin tmax sqrt) toDir)) ≤ (8 * teps) * (8 * teps)) := by
+  constructor
+  · intro hn
+    by_cases hd : 0 ≤ dot (nrm (Gen.V3.length tmin tmax sqrt) fromDir) (nrm (Gen.V3.length tmin tmax sqrt) toDir)
+    · exact (rotationMatrix_acute tmin tmax teps sqrt hlen fromDir toDir hf ht hd).2.2
+    · have hbig := not_le.mp (fun h => hn ⟨not_le.mp hd, h⟩)
+      exact (rotationMatrix_obtuse tmin tmax teps sqrt hlen fromDir toDir hf ht (not_le.mp hd) hbig).2.2
+  · rintro ⟨hd, hopp⟩
+    refine ⟨(rotationMatrix_nearOpposite tmin tmax teps sqrt hlen fromDir toDir hf ht hd hopp).2.2, ?_⟩
+    rw [dot_vsub_vneg]; exact hopp
 example : (⟨1, 0, 0⟩ : V3 ℝ) ≠ ⟨0, 0, 0⟩ ∧ (⟨-3, 1, 0⟩ : V3 ℝ) ≠ ⟨0, 0, 0⟩ := by constructor <;> simp
 
 end Frames
